@@ -84,6 +84,7 @@ def handle (op : String) (j : Json) : Option (Except String Json) :=
       .ok (Json.bool (C04.jwDCHOk tol (← J.nat (← J.field j "n")) (← J.gq (← J.field j "constant"))
         (← gqList (← J.field j "one")) (← gqList (← J.field j "two"))))
   | "c04.reverse" => some do .ok (J.ofOp (C04.reverseJW tol (← J.op (← J.field j "Q"))))
+  | "c04.reverse_ok" => some do .ok (Json.bool (C04.reverseJWOk tol (← J.op (← J.field j "Q"))))
   | "c04.jw_check" => some (jwCheck j)
   | _ => none
 
